@@ -134,6 +134,7 @@ class OnTheFlyMapper(argschema.ArgSchemaParser):
         reference_marker_update = {
             'precomputed_path_list': ref_stats_list,
             'output_dir': reference_marker_dir,
+            'tmp_dir': tmp_dir,
             'query_path': self.args['query_path'],
             'n_processors': self.args['n_processors'],
             'drop_level': self.args['drop_level'],
